@@ -67,7 +67,7 @@ def run(prop, tier, seed, replay, UNITS, build_unit, run_verus, scan_assumptions
     if not units:
         print('UNDECIDED property=%s reason=no unit serves this property' % prop)
         return 2
-    work = os.path.join(ROOT, '.work', prop)
+    work = os.path.join(os.environ.get('VERIF_WORK', os.path.join(ROOT, '.work')), prop)
     os.makedirs(work, exist_ok=True)
     results = {}
     with cf.ThreadPoolExecutor(max(1, len(units))) as ex:
